@@ -23,6 +23,8 @@
 //       executable): stdin "<hex type char>\t<hex text>" (type L = config)  ->  "PPFAIL <diags>" | "PARSEFAIL <diags pp> <diags parse>" |
 //       "OK <diags pp> <diags parse> <hex preprocessed text>"      diags = level:code,... or -
 //
+//   h_api ops      prints the nular / unary signatures of the operator registry (C20: which operators hand out containers)
+//
 //   h_api iso
 //       C20: several VMs in ONE process.  stdin: "<mode>\t<hex P>\t<hex Q>"   mode: alone | after | beside | twice
 //         alone : P in a fresh VM                         after : Q in a VM, then P in a second, fresh VM (both stay alive)
@@ -138,6 +140,16 @@ int main(int argc, char** argv)
 {
     std::string mode = argc > 1 ? argv[1] : "";
     std::string dir = argc > 2 ? argv[2] : "";
+    if (mode == "ops")
+    {
+        // the registry of a full VM: "N\t<name>" for every nular, "U\t<name>\t<right type>" for every unary signature
+        VM vm(0, true);
+        for (auto it = vm.rt->sqfop_nular_begin(); it != vm.rt->sqfop_nular_end(); ++it)
+            std::cout << "N\t" << it->first.name << "\n";
+        for (auto it = vm.rt->sqfop_unary_begin(); it != vm.rt->sqfop_unary_end(); ++it)
+            std::cout << "U\t" << it->first.name << "\t" << it->first.right_type.to_string() << "\n";
+        return 0;
+    }
     if (mode == "clocktest")
     {
         // the library must see the virtual clock: a 0.2 s limit and an endless loop end at once in wall time
